@@ -51,7 +51,7 @@ VALUE_METHODS = {"lower", "upper", "strip", "lstrip", "rstrip", "startswith", "e
                  "isdigit", "partition", "rpartition", "encode", "decode", "title", "zfill"}
 
 
-def reads_state(e: ast.AST) -> bool:
+def reads_state(e: ast.AST, value_calls: Iterable[str] = ()) -> bool:
     """The closed form contains a call whose result depends on the current state of a (possibly mutable) object: str(x), len(x), x.get(k) ..."""
     for n in ast.walk(e):
         if isinstance(n, ast.Call):
@@ -60,6 +60,8 @@ def reads_state(e: ast.AST) -> bool:
                 continue
             if isinstance(f, ast.Name) and f.id in ("Decimal", "Fraction", "int", "float", "bool", "abs") and all(isinstance(a, (ast.Constant, ast.Name, ast.Attribute)) for a in n.args):
                 continue
+            if (isinstance(f, ast.Name) and f.id in value_calls) or (isinstance(f, ast.Attribute) and ast.unparse(f) in value_calls):
+                continue  # constructor of an immutable value from its arguments
             return True
     return False
 
@@ -563,7 +565,7 @@ class Summariser:
         for nm, v in list(env.items()):
             if nm.startswith("%") or not isinstance(v, ast.AST) or (isinstance(v, ast.Name) and v.id == nm):
                 continue
-            if reads_state(v):
+            if reads_state(v, self.pure_calls):
                 env[nm] = ast.Name(id=nm, ctx=ast.Load())
 
     def _opaque(self, env: Dict[str, Any], names: Iterable[str]) -> None:
